@@ -224,7 +224,12 @@ where
     // If we have more attempts and there's a delay, set up hedge timing
     if max_attempts > 1 {
         match first_delay {
-            Some(delay) if delay > Duration::ZERO => {
+            // A per-attempt delay function is always driven by the timer loop, so that
+            // a zero first delay does not switch off the later, non-zero delays
+            Some(delay)
+                if delay > Duration::ZERO
+                    || matches!(config.delay, HedgeDelay::Dynamic(_)) =>
+            {
                 // Latency mode: wait for delay or result
                 let mut delay_fut = std::pin::pin!(tokio::time::sleep(delay));
 
